@@ -5,7 +5,7 @@ from trie import HexaryTrie
 from trie.exceptions import TraversedPartialPath
 
 from ..faults import FaultDB
-from ..hexcommon import literal_keys, resolve_val, valspecs
+from ..hexcommon import item_lists, literal_keys, resolve_val, valspecs
 from ..ref.mpt import RefTrie
 from ..ref.rlp_hp import hp, rlp_encode
 from ..util import Info, Raised, expect, expect_eq, impl, nibbles_of
@@ -45,8 +45,7 @@ def strategy(tier):
     n_items = 10 if tier == "quick" else 30
     return st.fixed_dictionaries(
         {
-            "items": st.lists(st.tuples(literal_keys(tier), valspecs(tier)), min_size=0,
-                              max_size=n_items),
+            "items": item_lists(tier, 0, n_items),
             "extra": st.lists(st.lists(st.integers(0, 15), max_size=14), max_size=4),
             "pick": st.integers(0, 1000),
         }
